@@ -472,7 +472,10 @@ pub fn census_matches(c: &Census, m: &Model) -> Result<(), String> {
 }
 
 pub fn mask_digits(s: &str) -> String {
-    crate::simlibc::mask_name(s)
+    // scratch paths (process id, driver-chosen parent) must not reach anything that is compared between runs
+    let parent = std::env::var("VERIF_SCRATCH").unwrap_or_else(|_| "/dev/shm".to_string());
+    let cleaned = s.replace(&format!("{}/kyro-verif.{}", parent, std::process::id()), "<scratch>").replace(&parent, "<scratch-parent>");
+    crate::simlibc::mask_name(&cleaned)
 }
 
 /// Scratch directory on tmpfs, unique per process, removed at exit by the driver (and by `cleanup`).
